@@ -19,6 +19,13 @@ def Consistent (u : NodeRes) (live : List WorkloadRes) : Prop :=
   (∀ k, u.cpuMap.get k = sumBy live (·.cpuMap.get k)) ∧
   (∀ k, u.numaMemory.get k = sumBy live (·.numaMemory.get k))
 
+/-- the same, but per-core and per-NUMA-node only over the keys of the capacity maps (what
+    the node resource check compares) -/
+def ConsistentOn (capacity u : NodeRes) (live : List WorkloadRes) : Prop :=
+  u.cpu = sumBy live (·.cpuRequest) ∧ u.memory = sumBy live (·.memoryRequest) ∧
+  (∀ k ∈ capacity.cpuMap.keys, u.cpuMap.get k = sumBy live (·.cpuMap.get k)) ∧
+  (∀ k ∈ capacity.numaMemory.keys, u.numaMemory.get k = sumBy live (·.numaMemory.get k))
+
 def allKeys (m : IMap) (ws : List WorkloadRes) (f : WorkloadRes → IMap) : List String :=
   m.keys ++ ws.flatMap fun w => (f w).keys
 
@@ -38,19 +45,24 @@ def UsageEq (a b : NodeRes) : Prop :=
 def usageEqB (a b : NodeRes) : Bool :=
   a.cpu == b.cpu && a.memory == b.memory && mapEqB a.cpuMap b.cpuMap && mapEqB a.numaMemory b.numaMemory
 
-/-- the workloads fit the capacity: a usage equal to their sum passes validation
-    (every used core exists and is not over-used; with a NUMA topology every NUMA node's
-    memory use is within its capacity) -/
-def usageOf (ws : List WorkloadRes) : NodeRes :=
-  { cpu := sumBy ws (·.cpuRequest), memory := sumBy ws (·.memoryRequest),
-    cpuMap := (allKeys [] ws (·.cpuMap)).eraseDups.map (fun k => (k, sumBy ws (·.cpuMap.get k))),
-    numaMemory := (allKeys [] ws (·.numaMemory)).eraseDups.map (fun k => (k, sumBy ws (·.numaMemory.get k))) }
+/-- the conditions checked by `NodeResourceInfo.Validate` -/
+def Valid (n : NodeInfo) : Prop :=
+  n.capacity.cpuMap.length ≠ 0 ∧ n.cpuMapOk = true ∧
+  (n.capacity.numa.length > 0 → n.numaTopoErr = none ∧ n.numaMemOk = true)
 
-def fitsB (capacity : NodeRes) (ws : List WorkloadRes) : Bool :=
-  let u := usageOf ws
-  u.cpuMap.all (fun (cpu, used) => capacity.cpuMap.has cpu && used ≤ capacity.cpuMap.get cpu) &&
-  (capacity.numa.length = 0 ||
-    capacity.numaMemory.all fun (id, mem) => 0 ≤ u.numaMemory.get id && u.numaMemory.get id ≤ mem)
+instance (n : NodeInfo) : Decidable (Valid n) := by unfold Valid; exact inferInstance
+
+/-- the usage written by the repair: the workloads' sum -/
+def repairedUsage (ws : List WorkloadRes) : NodeRes :=
+  { cpu := (sumWorkloads ws).cpuRequest, cpuMap := (sumWorkloads ws).cpuMap, memory := (sumWorkloads ws).memoryRequest,
+    numaMemory := (sumWorkloads ws).numaMemory, numa := [] }
+
+/-- the recorded workloads fit the node: a usage equal to their sum passes the node
+    validation (every used core exists and is not over-used; with a NUMA topology every NUMA
+    node's memory use is within its capacity) -/
+def Fits (n : NodeInfo) (ws : List WorkloadRes) : Prop := Valid { n with usage := repairedUsage ws }
+
+instance (n : NodeInfo) (ws : List WorkloadRes) : Decidable (Fits n ws) := by unfold Fits; exact inferInstance
 
 /-! ### C07 -/
 
